@@ -31,7 +31,23 @@ pub enum FaultPoint {
 
 #[derive(Debug, Clone, Serialize, Deserialize)]
 pub enum Case {
-    Timeout { target: u8, v6: bool, timeout_ms: u16, retries: u8, fault: FaultPoint, idx: u64 },
+    Timeout {
+        target: u8,
+        v6: bool,
+        timeout_ms: u16,
+        retries: u8,
+        fault: FaultPoint,
+        idx: u64,
+        /// 0: all three timeouts equal; 1: only the timeout that bounds the fault is short, the others are 20 s; 2: the others are None
+        #[serde(default)]
+        shape: u8,
+    },
+    /// A blocking step other than waiting for a reply. kind 0: connect to a listener whose accept queue is full (target 0 Java, 1 legacy 1.6, 2 Eco/HTTP);
+    /// 1: write to a peer that never reads (raw TCP socket); 2: HTTP server that accepts and stays silent; 3: HTTP server that sends the status line, headers and
+    /// the start of the body, then stalls; 4: HTTP connection refused.
+    Stall { kind: u8, target: u8, v6: bool, timeout_ms: u16, retries: u8, shape: u8 },
+    /// Eco / HTTP against an answering server at the IPv4 or IPv6 loopback address
+    HttpOk { v6: bool, idx: u64 },
     UdpRaw { v6: bool, send_len: usize, reply_len: usize, req_size: Option<usize>, salt: u8 },
     TcpRaw { v6: bool, send_len: usize, reply_len: usize, salt: u8 },
 }
@@ -88,6 +104,45 @@ fn bounded<T: Send + 'static>(limit: Duration, f: impl FnOnce() -> T + Send + 's
     }
 }
 
+/// Timeout settings where `which` (0 read, 1 write, 2 connect) is the short one.
+fn shaped(which: u8, d: Duration, retries: usize, shape: u8) -> Option<TimeoutSettings> {
+    let other = match shape {
+        0 => Some(d),
+        1 => Some(Duration::from_secs(20)),
+        _ => None,
+    };
+    let pick = |i: u8| if i == which { Some(d) } else { other };
+    TimeoutSettings::new(pick(0), pick(1), pick(2), retries).ok()
+}
+
+/// A listening socket whose accept queue is full: further connection attempts get no answer.
+struct StalledListener {
+    addr: SocketAddr,
+    _listener: std::net::TcpListener,
+    _fill: Vec<std::net::TcpStream>,
+}
+
+fn stalled_listener(ip: IpAddr) -> Option<StalledListener> {
+    use std::os::fd::AsRawFd;
+    let l = std::net::TcpListener::bind(SocketAddr::new(ip, 0)).ok()?;
+    // shrink the accept queue to its minimum and never accept
+    if unsafe { libc::listen(l.as_raw_fd(), 0) } != 0 {
+        return None;
+    }
+    let addr = l.local_addr().ok()?;
+    let mut fill = Vec::new();
+    for _ in 0 .. 8 {
+        match std::net::TcpStream::connect_timeout(&addr, Duration::from_millis(150)) {
+            Ok(s) => fill.push(s),
+            Err(e) if e.kind() == std::io::ErrorKind::TimedOut || e.kind() == std::io::ErrorKind::WouldBlock => {
+                return Some(StalledListener { addr, _listener: l, _fill: fill });
+            }
+            Err(_) => return None,
+        }
+    }
+    None
+}
+
 pub struct C12;
 
 const SLACK: Duration = Duration::from_millis(2500);
@@ -102,9 +157,12 @@ impl Prop for C12 {
     fn rule(&self) -> String {
         "REAL loopback sockets (no scripted transport). (a) every point at which a server may fall silent, enumerated: valve (before info; after the info challenge; before / in the \
          middle of the players and rules exchanges), GameSpy 3 (handshake, data), Unreal 2 (info, rules, players), Quake 3, Bedrock over UDP; Minecraft Java and legacy 1.6 over TCP \
-         (accept then silent; reply written but never closed; connection refused) x IPv4 / IPv6 x timeouts 40 / 120 ms x retries 0..=2, served by real server threads that wrap the \
+         (accept then silent; reply written but never closed; connection refused) x IPv4 / IPv6 x timeouts 40 / 120 ms x retries 0..=2 x timeout shape (all three equal; only the \
+         bounding one short and the others 20 s; the others None), served by real server threads that wrap the \
          reference servers in the fault injector. The query runs on a helper thread and must deliver Err of the matching class (PacketReceive; SocketConnect when refused; Ok when \
-         nothing is withheld) within attempts x steps x timeout + 2.5 s slack; still blocked at the deadline = violation. (b) raw socket fidelity through the re-exported socket \
+         nothing is withheld) within attempts x steps x timeout + 2.5 s slack; still blocked at the deadline = violation. (a') the other blocking steps: connecting to a listener whose accept queue is full (Java, legacy, Eco/HTTP: bounded by the \
+         connect timeout, SocketConnect), writing 64 MiB to a peer that never reads (raw TCP socket: bounded by the write timeout, PacketSend), Eco/HTTP (ureq) against a server that \
+         accepts and stays silent / sends headers and the start of the body then stalls / refuses (any error value within the bound), each x IPv4/IPv6 x 2 timeouts x 3 shapes. (a'') Eco/HTTP against an answering server at 127.0.0.1 and ::1: the query succeeds and the peer sees exactly one GET /frontpage carrying its own address as Host. (b) raw socket fidelity through the re-exported socket \
          implementations: payloads of 0, 1, 1023, 1024, 1025, 1472, 6144, 65507 and random sizes each way with requested receive sizes around the payload size: the server must see \
          exactly the bytes sent and the client must get exactly the first min(size, len) bytes (TCP: everything until the close). non-trivial = a fault after at least one successful \
          reply, IPv6, or a payload above 1024 bytes; distinct = digest of the case"
@@ -144,11 +202,36 @@ impl Prop for C12 {
                                 if tier == Tier::Quick && *f == FaultPoint::None && (retries > 0 || timeout_ms == 40) {
                                     continue;
                                 }
-                                v.push(Case::Timeout { target: ti as u8, v6, timeout_ms, retries, fault: *f, idx });
+                                v.push(Case::Timeout { target: ti as u8, v6, timeout_ms, retries, fault: *f, idx, shape: 0 });
+                                // the timeout that bounds the step is the only short one
+                                if *f != FaultPoint::None && (retries == 0 || tier == Tier::Thorough) {
+                                    v.push(Case::Timeout { target: ti as u8, v6, timeout_ms, retries, fault: *f, idx, shape: 1 + ((ti as u8 + timeout_ms as u8 + v6 as u8) & 1) });
+                                    if tier == Tier::Thorough {
+                                        v.push(Case::Timeout { target: ti as u8, v6, timeout_ms, retries, fault: *f, idx, shape: 2 - ((ti as u8 + timeout_ms as u8 + v6 as u8) & 1) });
+                                    }
+                                }
                             }
                         }
                     }
                 }
+            }
+        }
+        for v6 in [false, true] {
+            for timeout_ms in [40u16, 120] {
+                for shape in 0u8 .. 3 {
+                    for (kind, targets) in [(0u8, 3u8), (1, 1), (2, 1), (3, 1), (4, 1)] {
+                        for target in 0 .. targets {
+                            for retries in 0u8 ..= tier.pick(0, 2) {
+                                v.push(Case::Stall { kind, target, v6, timeout_ms, retries, shape });
+                            }
+                        }
+                    }
+                }
+            }
+        }
+        for v6 in [false, true] {
+            for idx in 0 .. tier.pick(6u64, 200) {
+                v.push(Case::HttpOk { v6, idx });
             }
         }
         let sizes = [0usize, 1, 1023, 1024, 1025, 1472, 6144, 65_507];
@@ -175,7 +258,181 @@ impl Prop for C12 {
     fn run(&self, case: &Case) -> Outcome {
         let mut o = Outcome::new();
         match case {
-            Case::Timeout { target, v6, timeout_ms, retries, fault, idx } => {
+            Case::HttpOk { v6, idx } => {
+                use crate::models::eco::{eco_state, thread_server, thread_server_v6};
+                o.label(if *v6 { "http-ok-ipv6" } else { "http-ok-ipv4" });
+                o.nontrivial = true;
+                let st = crate::runner::sample_one(&eco_state().boxed(), "C12-eco", *idx);
+                let (Some(s4), s6) = (thread_server(), if *v6 { thread_server_v6() } else { None }) else {
+                    o.excluded = Some("cannot bind the IPv4 loopback address (class skipped)".into());
+                    o.nontrivial = false;
+                    return o;
+                };
+                if *v6 && s6.is_none() {
+                    o.excluded = Some("cannot bind ::1 (class skipped)".into());
+                    o.nontrivial = false;
+                    return o;
+                }
+                let server = s6.unwrap_or(s4);
+                server.set_json(&st.body());
+                let ip = ip_of(*v6);
+                let port = server.port;
+                let t = TimeoutSettings::new(Some(Duration::from_secs(3)), Some(Duration::from_secs(3)), Some(Duration::from_secs(3)), 0).ok();
+                let res = bounded(Duration::from_secs(12), move || gamedig::games::eco::query_with_timeout(&ip, Some(port), &t));
+                let host = if *v6 { "[::1]" } else { "127.0.0.1" };
+                match res {
+                    None => {
+                        o.fail("C12|eco::query|answering server|blocked or panicked", json!({"ipv6": v6}));
+                    }
+                    Some((Err(e), _)) => {
+                        o.fail(format!("C12|eco::query|answering server|{}|{:?}", if *v6 { "ipv6" } else { "ipv4" }, e.kind), json!({"ipv6": v6, "error": format!("{e:?}").chars().take(300).collect::<String>()}));
+                    }
+                    Some((Ok(got), _)) => {
+                        let reqs = server.requests();
+                        let ok = reqs.len() == 1
+                            && reqs[0].0 == "GET /frontpage HTTP/1.1"
+                            && reqs[0].1.iter().any(|(k, v)| k == "host" && (v == &format!("{host}:{port}") || v == host));
+                        if !ok {
+                            o.fail("C12|eco::query|answering server|the peer did not see exactly one GET /frontpage for its address", json!({"ipv6": v6, "requests": format!("{reqs:?}")}));
+                        } else if got.description != st.expected().description {
+                            o.fail("C12|eco::query|answering server|response is not the one served", json!({"ipv6": v6}));
+                        }
+                    }
+                }
+            }
+            Case::Stall { kind, target, v6, timeout_ms, retries, shape } => {
+                let ip = ip_of(*v6);
+                let d = Duration::from_millis(*timeout_ms as u64);
+                let attempts = *retries as u32 + 1;
+                let limit = d * attempts * 6 + SLACK;
+                let name = match (*kind, *target) {
+                    (0, 0) => "connect stalls|minecraft::query_java",
+                    (0, 1) => "connect stalls|minecraft::query_legacy_specific",
+                    (0, _) => "connect stalls|eco::query",
+                    (1, _) => "peer never reads|TcpSocket",
+                    (2, _) => "http server silent|eco::query",
+                    (3, _) => "http body stalls|eco::query",
+                    _ => "http connection refused|eco::query",
+                };
+                o.label(format!("stall: {name}"));
+                o.label(format!("timeout shape {shape}"));
+                o.label(if *v6 { "ipv6" } else { "ipv4" });
+                o.nontrivial = true;
+                // which timeout has to bound the step
+                let which = match *kind { 0 | 4 => 2, 1 => 1, _ => 0 };
+                let t = shaped(which, d, *retries as usize, *shape);
+                let skip = |o: &mut Outcome, why: String| {
+                    o.excluded = Some(why);
+                    o.nontrivial = false;
+                };
+                // keep the peer alive until the verdict
+                let mut _stalled = None;
+                let mut _plain = None;
+                let mut _thread: Option<(std::sync::Arc<std::sync::atomic::AtomicBool>, std::thread::JoinHandle<()>)> = None;
+                let addr: SocketAddr = match *kind {
+                    0 => match stalled_listener(ip) {
+                        Some(s) => {
+                            let a = s.addr;
+                            _stalled = Some(s);
+                            a
+                        }
+                        None => {
+                            skip(&mut o, format!("no stalled listener on {ip} (class skipped)"));
+                            return o;
+                        }
+                    },
+                    1 | 2 => match std::net::TcpListener::bind(SocketAddr::new(ip, 0)) {
+                        // connections complete in the accept queue; nobody ever reads or answers
+                        Ok(l) => {
+                            let a = l.local_addr().unwrap();
+                            _plain = Some(l);
+                            a
+                        }
+                        Err(_) => {
+                            skip(&mut o, format!("cannot bind {ip} (class skipped)"));
+                            return o;
+                        }
+                    },
+                    3 => match std::net::TcpListener::bind(SocketAddr::new(ip, 0)) {
+                        Ok(l) => {
+                            let a = l.local_addr().unwrap();
+                            let _ = l.set_nonblocking(true);
+                            let stop = std::sync::Arc::new(std::sync::atomic::AtomicBool::new(false));
+                            let stop2 = stop.clone();
+                            let h = std::thread::spawn(move || {
+                                use std::io::{Read, Write};
+                                let mut held = Vec::new();
+                                while !stop2.load(std::sync::atomic::Ordering::SeqCst) {
+                                    if let Ok((mut c, _)) = l.accept() {
+                                        let _ = c.set_nonblocking(false);
+                                        let _ = c.set_read_timeout(Some(Duration::from_millis(200)));
+                                        let mut buf = [0u8; 2048];
+                                        let _ = c.read(&mut buf);
+                                        let _ = c.write_all(b"HTTP/1.1 200 OK\r\nContent-Type: application/json\r\nContent-Length: 4096\r\n\r\n{\"Info\": {");
+                                        let _ = c.flush();
+                                        held.push(c);
+                                    } else {
+                                        std::thread::sleep(Duration::from_millis(2));
+                                    }
+                                }
+                            });
+                            _thread = Some((stop, h));
+                            a
+                        }
+                        Err(_) => {
+                            skip(&mut o, format!("cannot bind {ip} (class skipped)"));
+                            return o;
+                        }
+                    },
+                    _ => match closed_tcp_port(ip) {
+                        Some(p) => SocketAddr::new(ip, p),
+                        None => {
+                            skip(&mut o, "loopback address cannot be bound".into());
+                            return o;
+                        }
+                    },
+                };
+                let (kind2, target2) = (*kind, *target);
+                let res = bounded(limit, move || -> Result<(), gamedig::GDError> {
+                    match (kind2, target2) {
+                        (0, 0) => Entry::McJava.call_full(&ip, Some(addr.port()), t).map(|_| ()),
+                        (0, 1) => Entry::McLegacySpecific(0).call_full(&ip, Some(addr.port()), t).map(|_| ()),
+                        (1, _) => {
+                            let mut s = RealTcpSocket::new(&addr, &t)?;
+                            let big = vec![0x5Au8; 64 << 20];
+                            s.send(&big)
+                        }
+                        _ => gamedig::games::eco::query_with_timeout(&ip, Some(addr.port()), &t).map(|_| ()),
+                    }
+                });
+                if let Some((stop, h)) = _thread.take() {
+                    stop.store(true, std::sync::atomic::Ordering::SeqCst);
+                    let _ = h.join();
+                }
+                let detail = |extra: serde_json::Value| json!({"ipv6": v6, "timeout_ms": timeout_ms, "retries": retries, "shape": shape, "limit_ms": limit.as_millis(), "info": extra});
+                match res {
+                    None => {
+                        o.fail(format!("C12|{name}|still blocked at the deadline (or panicked)"), detail(json!({})));
+                    }
+                    Some((Ok(()), took)) => {
+                        o.fail(format!("C12|{name}|wrong outcome|Ok"), detail(json!({"took_ms": took.as_millis()})));
+                    }
+                    Some((Err(e), took)) => {
+                        let want: Option<GDErrorKind> = match *kind {
+                            0 if *target < 2 => Some(GDErrorKind::SocketConnect),
+                            1 => Some(GDErrorKind::PacketSend),
+                            _ => None, // HTTP: any error value
+                        };
+                        if let Some(w) = want {
+                            if e.kind != w {
+                                o.fail(format!("C12|{name}|wrong outcome|{:?}", e.kind), detail(json!({"took_ms": took.as_millis()})));
+                            }
+                        }
+                        o.label(format!("stall outcome: {name}: {:?}", e.kind));
+                    }
+                }
+            }
+            Case::Timeout { target, v6, timeout_ms, retries, fault, idx, shape } => {
                 let (entry, _) = targets().swap_remove(*target as usize);
                 let fam = entry.family();
                 let ip = ip_of(*v6);
@@ -219,7 +476,9 @@ impl Prop for C12 {
                     }
                 };
                 let d = Duration::from_millis(*timeout_ms as u64);
-                let t = TimeoutSettings::new(Some(d), Some(d), Some(d), *retries as usize).ok();
+                // a silent peer is bounded by the read timeout, a refused connection by nothing (immediate)
+                let t = shaped(0, d, *retries as usize, *shape);
+                o.label(format!("timeout shape {shape}"));
                 let attempts = *retries as u32 + 1;
                 let limit = d * attempts * 6 + SLACK;
                 let e2 = entry.clone();
